@@ -52,6 +52,7 @@ class World:
         self._ng = 0
         self.ncalls = 0
         self.zombies = []
+        self.by_id = set()  # slots whose handle was opened by id (it may not know its state point yet)
         self.lazy_copy = {}  # slot -> the shallow copy linking it to its group was made before the state point object existed
 
     # ------------------------------------------------------------------ helpers
@@ -127,6 +128,10 @@ class World:
                 ops += [("move", s), ("clone", s)]
             if alphabet.get("reopen", True) and self.model_job(s) is not None:
                 ops.append(("reopen", s))
+            if alphabet.get("reopen", True) and self.model_job(s) is None and self.g(s)["proj"] == "P" and \
+                    canon.job_id(self.g(s)["sp"]) in self.proj["P"]._sp_cache:
+                # a job that is gone from the workspace stays re-openable by id through a session that still knows it
+                ops.append(("reopen_cached", s))
             if alphabet.get("pickle_proc") and len(s) == 1:
                 # the handle is pickled into a freshly started process, which performs one operation with it
                 ops += [("proc", s, "init"), ("proc", s, "doc_set"), ("proc", s, "sp_set_b"), ("proc", s, "remove")]
@@ -262,6 +267,9 @@ class World:
             # now, shallow copies included: only re-keys are promised to propagate.  They are not offered any more.
             self._invalidate_others(grp, proj, jid)
             self._drop_group(grp, keep=slot)
+            if slot in self.by_id and job._statepoint_requires_init and job._cached_statepoint is None:
+                # opened by id and never asked for its state point: with the job gone nobody can tell it any more
+                self._drop_slot(slot)
         elif name in ("sp_set", "sp_toggle", "sp_del", "sp_nested", "sp_assign", "sp_assign_typed", "update_sp"):
             old = g["sp"]
             new = _jcopy(old)
@@ -388,6 +396,13 @@ class World:
                         mj["sp"] = new
                         self.jobs[proj][new_id] = mj
                     self._invalidate_others(None, proj, jid)
+        elif name == "reopen_cached":
+            holder = {}
+            run(lambda: holder.setdefault("j", self.proj[proj].open_job(id=jid)))
+            self._drop_slot(slot)
+            self.slots[slot] = holder["j"]
+            self.group_of[slot] = self._new_group(proj, g["sp"])
+            self.by_id.add(slot)
         elif name == "reopen":
             p = self.signac.Project(self.paths[proj])
             holder = {}
@@ -395,6 +410,7 @@ class World:
             self._drop_slot(slot)
             self.slots[slot] = holder["j"]
             self.group_of[slot] = self._new_group(proj, g["sp"])
+            self.by_id.add(slot)
         else:
             raise ValueError(op)
         return False
@@ -420,6 +436,12 @@ class World:
             members = [x for x in self.slots if self.group_of[x] == self.group_of[slot]]
             extra = {"shallow_copy_group": len(members) > 1,
                      "copy_made_before_statepoint_access": any(self.lazy_copy.get(x, False) for x in members)}
+            mj = self.jobs[g["proj"]].get(want_id)
+            if mj is None and slot in self.by_id and job._statepoint_requires_init and job._cached_statepoint is None:
+                # a handle opened by id that has not read its state point cannot do so once the job is gone
+                if job.id != want_id:
+                    out.append(("handle-does-not-describe-its-job", f"handle {slot} reports id {job.id}, model {want_id}", extra))
+                continue
             try:
                 got = {"id": job.id, "path": os.path.relpath(job.path, self.root),
                        "sp": canon.plain(job.statepoint()), "csp": canon.plain(dict(job.cached_statepoint))}
